@@ -136,6 +136,7 @@ func (p Point) ToPb() (pb.Point, error) {
 		Text:      p.Text,
 		Time:      ts,
 		Tombstone: int32(p.Tombstone),
+		Data:      p.Data,
 		Origin:    p.Origin,
 	}, nil
 }
@@ -149,6 +150,7 @@ func (p Point) ToSerial() (pb.SerialPoint, error) {
 		Text:      p.Text,
 		Time:      p.Time.UnixNano(),
 		Tombstone: int32(p.Tombstone),
+		Data:      p.Data,
 		Origin:    p.Origin,
 	}, nil
 }
@@ -442,6 +444,7 @@ func PbToPoint(sPb *pb.Point) (Point, error) {
 		Value:     sPb.Value,
 		Time:      ts,
 		Tombstone: int(sPb.Tombstone),
+		Data:      sPb.Data,
 		Origin:    sPb.Origin,
 	}
 
@@ -457,6 +460,7 @@ func SerialToPoint(sPb *pb.SerialPoint) (Point, error) {
 		Value:     float64(sPb.Value),
 		Time:      time.Unix(0, sPb.Time),
 		Tombstone: int(sPb.Tombstone),
+		Data:      sPb.Data,
 		Origin:    sPb.Origin,
 	}
 
